@@ -257,7 +257,7 @@ pub fn run(tier: &str, seed: u64) -> i32 {
     let mut ev = Evidence::new("C20", tier, seed, "exploration");
     ev.rule = "histories: a pool of 2-7 generated inputs (structures over all operators with adversarial operands, and wide programs with up to 11 branches x 3 steps, each with 0-2 options incl. explicit futures_crate_path / custom_joiner) x the 8 configurations; a sequence of 2-39 expansions over the pool in random order with repetition, executed sequentially on one thread, then once more from parse results that were all produced up front (parsing and generating decoupled), and then again concurrently on 1-8 fresh threads started behind a barrier (each thread lexes its own token stream; only strings cross threads). Oracle: table (input, config) -> first output string; every later output, sequential or concurrent, is byte-identical (syn errors and configuration panics are outputs too); every fourth history is additionally expanded in two fresh child processes, once in the given and once in reverse order, and each (input, config) must give the same output in both - state that the first expansion of a process leaves behind would show there. Non-trivial = some (input, config) is expanded at least twice with a different input in between, or the history runs on >= 2 threads; distinct by history content".to_string();
     ev.assumptions = vec!["token-for-token identity is compared on the string form of the output token stream".into()];
-    let cases: u32 = if tier == "quick" { 2_000 } else { 40_000 };
+    let cases: u32 = if tier == "quick" { 2_000 } else { 20_000 };
     let counts = RefCell::new((0u64, 0u64, 0u64, BTreeMap::<String, u64>::new(), Vec::<serde_json::Value>::new(), HashSet::<u64>::new()));
     let stop = RefCell::new(false);
     let mut runner = crate::new_runner(seed, 0x20, cases);
